@@ -58,3 +58,8 @@ def run(ctx, rep):
     for (where, what) in sorted(set(ctx.wire.undecidable)):
         rep.fail("R1.0", "undecidable:%s:%s" % (where, what), "wire model could not decide: %s at %s" % (what, where))
     handpairs.run(ctx, rep)
+    # the size byte is part of every round trip through the codec: its two conversions must be mirror images
+    # (encode: len -> len | len/4 under guards, decode: first byte -> byte | byte*4 without losing bits)
+    from props import c03_mir, c04
+    c03_mir.run(ctx, rep)
+    c04.decode_length(ctx, rep)
